@@ -159,7 +159,7 @@ package file
 //@ modifies taskIdx
 //@ at return HasTask#0: ghost taskIdx = store(taskIdx, task.Name, $i)
 //@ ensures [C03,defining-node-index] result1 == nil ==> forall k int :: {tree.Nodes[k]} 0 <= k && k < len(tree.Nodes) && nodeType(tree.Nodes[k]) == ast.NodeTask ==> taskIdx[tname(tree.Nodes[k])] == k
-//@ ensures [shape] result1 == nil ==> result0 != nil && fresh(result0) && result0.Dir == root && result0.Path == join2(root, "spokfile") && result0.Vars != nil && result0.Tasks != nil && result0.Globs != nil
+//@ ensures [shape] result1 == nil ==> result0 != nil && fresh(result0) && result0.Dir == root && result0.Path == join2(root, "spokfile") && result0.Vars != nil && result0.Tasks != nil && result0.Globs != nil && fresh(result0.Globs)
 //@ ensures [C03,TasksInv] result1 == nil ==> TasksInv(result0)
 //@ ensures [C05,no-stale-expansions] result1 == nil ==> GlobsCurrent(result0)
 //@ ensures [C13,vars-are-the-last-assignments] result1 == nil ==> mapval(result0.Vars) == varsF(tree.Nodes, len(tree.Nodes))
